@@ -24,9 +24,9 @@ Arguments Raise {A} cls.
 
     [f_pre] = bytes of the base layer (ZigbeeNWK header for the network layer,
     ZigbeeAppDataPayload header for the application sub-layer) that precede the
-    ZigbeeSecurityHeader; then the security header fields.  The extended-nonce bit is 1
-    (the 8-byte source is present: every frame the stack builds at the network layer and the
-    transport-key frames; frames without it are outside the model).  [f_kseq] is on the wire
+    ZigbeeSecurityHeader; then the security header fields.  [f_ext] is the extended-nonce bit:
+    when set the 8-byte source is on the wire (every frame the stack builds at the network
+    layer, and the transport-key frames); when clear it is absent.  [f_kseq] is on the wire
     only when [f_kt = 1] (network key).  [f_data]/[f_mic] are the two scapy fields: after
     dissection at levels 1-3/5-7 the last M bytes are in [f_mic]; at level 0 (what is sent on
     the air) everything is in [f_data] and [f_mic] is empty; a frame built by the stack has
@@ -37,21 +37,22 @@ Record frame : Type := mkFrame {
   f_kt : N;       (* key_type, 2 bits *)
   f_lvl : N;      (* nwk_seclevel, 3 bits *)
   f_fc : N;       (* frame counter, 32 bits *)
-  f_src : bytes;  (* source, 8 bytes as on the wire *)
+  f_ext : bool;   (* extended_nonce: the source field is on the wire *)
+  f_src : bytes;  (* source, 8 bytes as on the wire (meaningful iff f_ext) *)
   f_kseq : N;     (* key sequence number (present iff f_kt = 1) *)
   f_data : bytes;
   f_mic : bytes }.
 
 Definition set_lvl (l : N) (f : frame) : frame :=
-  mkFrame (f_pre f) (f_res f) (f_kt f) l (f_fc f) (f_src f) (f_kseq f) (f_data f) (f_mic f).
+  mkFrame (f_pre f) (f_res f) (f_kt f) l (f_fc f) (f_ext f) (f_src f) (f_kseq f) (f_data f) (f_mic f).
 Definition set_data (d : bytes) (f : frame) : frame :=
-  mkFrame (f_pre f) (f_res f) (f_kt f) (f_lvl f) (f_fc f) (f_src f) (f_kseq f) d (f_mic f).
+  mkFrame (f_pre f) (f_res f) (f_kt f) (f_lvl f) (f_fc f) (f_ext f) (f_src f) (f_kseq f) d (f_mic f).
 Definition set_mic (m : bytes) (f : frame) : frame :=
-  mkFrame (f_pre f) (f_res f) (f_kt f) (f_lvl f) (f_fc f) (f_src f) (f_kseq f) (f_data f) m.
+  mkFrame (f_pre f) (f_res f) (f_kt f) (f_lvl f) (f_fc f) (f_ext f) (f_src f) (f_kseq f) (f_data f) m.
 
 Definition wf_frame (f : frame) : bool :=
   wf_bytes (f_pre f) && (f_res f <? 4) && (f_kt f <? 4) && (f_lvl f <? 8) && (f_fc f <? 4294967296)
-  && wf_bytes (f_src f) && Nat.eqb (length (f_src f)) 8 && (f_kseq f <? 256)
+  && wf_bytes (f_src f) && (Nat.eqb (length (f_src f)) 8 || negb (f_ext f)) && (f_kseq f <? 256)
   && wf_bytes (f_data f) && wf_bytes (f_mic f).
 
 (** Python [l[:-n]] and [l[-n:]] (n >= 0; note [l[:-0] = b""] and [l[-0:] = l]). *)
@@ -83,9 +84,9 @@ Definition py_replace_del (needle l : bytes) : bytes :=
   match needle with [] => l | _ => py_remove_aux needle 0 l end.
 
 (** ** raw bytes (scapy build of the base layer and above) *)
-Definition ctrl_byte (f : frame) : N := f_lvl f + 8 * f_kt f + 32 + 64 * f_res f.
+Definition ctrl_byte (f : frame) : N := f_lvl f + 8 * f_kt f + (if f_ext f then 32 else 0) + 64 * f_res f.
 Definition sec_fixed (f : frame) : bytes :=
-  ctrl_byte f :: le32 (f_fc f) ++ f_src f ++ (if f_kt f =? 1 then [f_kseq f] else []).
+  ctrl_byte f :: le32 (f_fc f) ++ (if f_ext f then f_src f else []) ++ (if f_kt f =? 1 then [f_kseq f] else []).
 Definition sec_raw (f : frame) : bytes := sec_fixed f ++ f_data f ++ f_mic f.
 Definition hdr_raw (f : frame) : bytes := f_pre f ++ sec_fixed f.
 Definition raw_base (f : frame) : bytes := f_pre f ++ sec_raw f.
@@ -120,8 +121,15 @@ Definition gen_nonce (f : frame) : bytes :=
   slice 5 13 (sec_raw f) ++ le32 (f_fc f) ++ [ctrl_byte f].
 
 (** [generateAuth] (repaired code): with encryption the authenticated data is the raw frame
-    without its last len(data)+len(mic) bytes; without encryption raw[:-M]. *)
+    without its last len(data)+len(mic) bytes; at the integrity-only levels it is the frame
+    without its MIC field (header and payload). *)
 Definition gen_auth (sp : secparams) (f : frame) : bytes :=
+  if sp_enc sp then
+    firstn (length (raw_base f) - length (f_data f) - length (f_mic f)) (raw_base f)
+  else firstn (length (raw_base f) - length (f_mic f)) (raw_base f).
+
+(** [generateAuth] after the first repair, before the repair of the integrity-only levels *)
+Definition gen_auth_v1 (sp : secparams) (f : frame) : bytes :=
   if sp_enc sp then
     firstn (length (raw_base f) - length (f_data f) - length (f_mic f)) (raw_base f)
   else py_drop_last (sp_M sp) (raw_base f).
@@ -171,6 +179,9 @@ Section WithCipher.
     (** the authenticated-data function is a parameter so that the same transcription gives the
         repaired code ([gen_auth]) and the code before the repair ([gen_auth_replace]) *)
     Variable ga : secparams -> frame -> bytes.
+    (** [legacy = true]: the code before the repair of the integrity-only levels (the payload
+        went through the cipher at every level and decrypt overwrote it at every level) *)
+    Variable legacy : bool.
 
     (** [generateMIC] (called by decrypt after packet.data = plaintext) *)
     Definition generate_mic (sp : secparams) (key nonce : bytes) (f : frame) : bytes :=
@@ -191,9 +202,14 @@ Section WithCipher.
       match sp_M sp with
       | O => Raise "ValueError"%string          (* AES.new(..., mac_len=0) *)
       | M =>
-        let pt := if mic_absent_patched sp f1 then py_drop_last M (f_data f1) else f_data f1 in
-        let '(ct, tag) := ccm_encrypt E M 2 key nonce auth pt in
-        Ok (restore sp (set_mic tag (set_data ct f1)))
+        if Nat.ltb (length nonce) 7 then Raise "ValueError"%string   (* AES.new: nonce of 7..13 bytes *)
+        else
+        let L := (15 - length nonce)%nat in
+        let pt := if sp_enc sp || legacy
+                  then (if mic_absent_patched sp f1 then py_drop_last M (f_data f1) else f_data f1)
+                  else [] in
+        let '(ct, tag) := ccm_encrypt E M L key nonce auth pt in
+        Ok (restore sp (set_mic tag (if sp_enc sp || legacy then set_data ct f1 else f1)))
       end.
 
     Definition decrypt_with (key : bytes) (f : frame) : pyres (frame * bool) :=
@@ -204,19 +220,25 @@ Section WithCipher.
       match sp_M sp with
       | O => Raise "ValueError"%string
       | M =>
-        match ccm_decrypt E M 2 key nonce auth ct mic with
+        if Nat.ltb (length nonce) 7 then Raise "ValueError"%string
+        else
+        match ccm_decrypt E M (15 - length nonce) key nonce auth ct mic with
         | Some pt =>
-          let f2 := set_data pt f1 in
+          let f2 := if sp_enc sp || legacy then set_data pt f1 else f1 in
           Ok (restore sp (set_mic (generate_mic sp key nonce f2) f2), true)
         | None => Ok (restore sp f1, false)
         end
       end.
   End WithAuth.
 
-  Definition encrypt := encrypt_with gen_auth.
-  Definition decrypt := decrypt_with gen_auth.
-  Definition encrypt_old := encrypt_with gen_auth_replace.
-  Definition decrypt_old := decrypt_with gen_auth_replace.
+  Definition encrypt := encrypt_with gen_auth false.
+  Definition decrypt := decrypt_with gen_auth false.
+  (** after the first repair (generateAuth prefix), before the repair of levels 1-3 *)
+  Definition encrypt_v1 := encrypt_with gen_auth_v1 true.
+  Definition decrypt_v1 := decrypt_with gen_auth_v1 true.
+  (** the original code *)
+  Definition encrypt_old := encrypt_with gen_auth_replace true.
+  Definition decrypt_old := decrypt_with gen_auth_replace true.
 
   (** [encrypt] applied to a packet in which the manager's base-class layer is absent:
       generateAuth evaluates packet[self.base_class:], which raises IndexError (scapy). *)
@@ -228,7 +250,7 @@ Section WithCipher.
       and handed to ApplicationSubLayerCryptoManager(key, None).encrypt BEFORE the
       ZigbeeAppDataPayload header is put below it. *)
   Definition aps_data_request_secured (key : bytes) (fc : N) (src asdu : bytes) : pyres frame :=
-    encrypt_packet false (aps_key key None) (mkFrame [] 0 0 0 fc src 0 asdu []).
+    encrypt_packet false (aps_key key None) (mkFrame [] 0 0 0 fc false src 0 asdu []).
 
   Definition status_of (r : pyres (frame * bool)) : bool :=
     match r with Ok (_, b) => b | Raise _ => false end.
@@ -303,8 +325,12 @@ Section WithCipher.
   Definition with_mats (st : nwk) (ms : list material) : nwk :=
     mkNwk (n_level st) (n_all_fresh st) (n_secure_all st) ms.
 
+  (** pdu[ZigbeeSecurityHeader].source: the address, or None (here the empty string) when the
+      field is absent *)
+  Definition sender_of (f : frame) : bytes := if f_ext f then f_src f else [].
+
   Definition stale (st : nwk) (m : material) (f : frame) : bool :=
-    match lookup (f_src f) (m_in m) with
+    match lookup (sender_of f) (m_in m) with
     | Some c => (f_fc f <? c) && n_all_fresh st
     | None => false
     end.
@@ -319,7 +345,7 @@ Section WithCipher.
       | Some m =>
         if stale st m f then DecFail else
         match decrypt (m_key m) f with
-        | Ok (f', true) => DecOk f' (with_mats st (store k (f_src f) (f_fc f + 1) (n_mats st)))
+        | Ok (f', true) => DecOk f' (with_mats st (store k (sender_of f) (f_fc f + 1) (n_mats st)))
         | Ok (_, false) => DecFail
         | Raise cls => DecRaise cls
         end
@@ -354,10 +380,87 @@ Section WithCipher.
     | p :: r =>
       let '(o, st1) := nwk_step st p in
       match p, o with
-      | Secured f, UpSecured _ _ => (f_kseq f, f_src f, f_fc f) :: accepted st1 r
+      | Secured f, UpSecured _ _ => (f_kseq f, sender_of f, f_fc f) :: accepted st1 r
       | _, _ => accepted st1 r
       end
     end.
+
+  (** ** Application support sub-layer: APSManager.decrypt / on_nlde_data
+
+      apsDeviceKeyPairSet = list of (device short address or None for a pre-installed key,
+      link key); nwkAddressMap = list of (IEEE address as on the wire, short address).
+      The key pairs carry an incoming_frame_counter attribute that the receive path never
+      reads nor writes: there is no freshness check at this layer and no state. *)
+  Record keypair : Type := mkKp { kp_addr : option N; kp_key : bytes }.
+  Record aps : Type := mkAps { a_map : list (bytes * N); a_kps : list keypair }.
+
+  Definition opt_eqb (a b : option N) : bool :=
+    match a, b with Some x, Some y => x =? y | None, None => true | _, _ => false end.
+  (** APSKeyPairSet.select(address): the pairs of that device, else the pre-installed ones *)
+  Definition aps_select (short : option N) (kps : list keypair) : list keypair :=
+    match filter (fun kp => opt_eqb (kp_addr kp) short) kps with
+    | [] => filter (fun kp => match kp_addr kp with None => true | Some _ => false end) kps
+    | m => m
+    end.
+
+  Inductive apsdec : Type :=
+  | ADecOk (f : frame)
+  | ADecFail
+  | ADecRaise (cls : string).
+
+  (** hash_key input chosen from the key identifier; key identifier 1 leaves the local
+      variable [input] unbound *)
+  Definition aps_input (kt : N) : option (option N) :=
+    if kt =? 0 then Some None else if kt =? 2 then Some (Some 0) else if kt =? 3 then Some (Some 2) else None.
+
+  Fixpoint aps_try (cands : list keypair) (f : frame) : apsdec :=
+    match cands with
+    | [] => ADecFail
+    | kp :: r =>
+      match aps_input (f_kt f) with
+      | None => ADecRaise "UnboundLocalError"%string
+      | Some inp =>
+        match decrypt (aps_key (kp_key kp) inp) f with
+        | Ok (f', true) => ADecOk f'
+        | Ok (_, false) => aps_try r f
+        | Raise cls => ADecRaise cls
+        end
+      end
+    end.
+
+  Definition aps_decrypt (st : aps) (f : frame) : apsdec :=
+    let short := if f_ext f then lookup (f_src f) (a_map st) else None in
+    aps_try (aps_select short (a_kps st)) f.
+
+  (** an NSDU handed up by the NWK data service *)
+  Inductive nsdu : Type :=
+  | ApsSecured (f : frame)                    (* ZigbeeAppDataPayload / ZigbeeSecurityHeader *)
+  | ApsPlain (frametype : N) (raw : bytes).   (* ZigbeeAppDataPayload without security header *)
+
+  Inductive aps_outcome : Type :=
+  | AUpSecured (svc : N) (f : frame)     (* 0 = data service, 1 = management service *)
+  | AUpPlain (svc : N) (raw : bytes)
+  | ANothing                             (* dropped, or an acknowledgement *)
+  | ARaised (cls : string).
+
+  (** on_nlde_data: aps_frametype 0 -> data service, 1 -> management service, else nothing *)
+  Definition aps_route_secured (f : frame) : aps_outcome :=
+    let ft := frametype_of f in
+    if ft =? 0 then AUpSecured 0 f else if ft =? 1 then AUpSecured 1 f else ANothing.
+
+  Definition aps_step (st : aps) (p : nsdu) : aps_outcome :=
+    match p with
+    | ApsPlain ft raw => if ft =? 0 then AUpPlain 0 raw else if ft =? 1 then AUpPlain 1 raw else ANothing
+    | ApsSecured f =>
+      match aps_decrypt st f with
+      | ADecOk f' => aps_route_secured f'
+      | ADecFail => ANothing
+      | ADecRaise cls => ARaised cls
+      end
+    end.
+
+  (** the receive path has no state to thread *)
+  Definition aps_run (st : aps) (ps : list nsdu) : list aps_outcome := map (aps_step st) ps.
 
   (** current stored counter for (key sequence number, sender) *)
   Definition stored (st : nwk) (k : N) (a : bytes) : option N :=
@@ -368,8 +471,12 @@ End WithCipher.
 
 (** with the 8-byte source present, raw(security header)[5:13] is the source *)
 Definition nonce_of (f : frame) : bytes := f_src f ++ le32 (f_fc f) ++ [ctrl_byte f].
+(** CCM length-field size the code ends up with: 15 - len(nonce) *)
+Definition Lf (f : frame) : nat := (15 - length (gen_nonce (fst (check_security_level f))))%nat.
 
 Definition in_scope (l : N) : Prop := l = 0 \/ l = 5 \/ l = 6 \/ l = 7.
+(** EXTENSION beyond the property's quantifier: the integrity-only levels *)
+Definition mic_scope (l : N) : Prop := l = 1 \/ l = 2 \/ l = 3.
 
 (** what checkSecurityLevel returns *)
 Definition patch (f : frame) : frame := fst (check_security_level f).
@@ -398,7 +505,7 @@ End Spec.
 Fixpoint events_of (l : list (npdu * outcome)) : list event :=
   match l with
   | [] => []
-  | (Secured f, UpSecured _ _) :: r => (f_kseq f, f_src f, f_fc f) :: events_of r
+  | (Secured f, UpSecured _ _) :: r => (f_kseq f, sender_of f, f_fc f) :: events_of r
   | _ :: r => events_of r
   end.
 
@@ -417,7 +524,7 @@ Fixpoint fresh_hist (T : N -> bytes -> option N) (evs : list event) : Prop :=
 
 Definition frame_eqb (a b : frame) : bool :=
   bytes_eqb (f_pre a) (f_pre b) && (f_res a =? f_res b) && (f_kt a =? f_kt b) && (f_lvl a =? f_lvl b)
-  && (f_fc a =? f_fc b) && bytes_eqb (f_src a) (f_src b)
+  && (f_fc a =? f_fc b) && Bool.eqb (f_ext a) (f_ext b) && (bytes_eqb (f_src a) (f_src b) || negb (f_ext a))
   && ((f_kseq a =? f_kseq b) || negb (f_kt a =? 1))
   && bytes_eqb (f_data a) (f_data b) && bytes_eqb (f_mic a) (f_mic b).
 
@@ -447,6 +554,7 @@ Definition check_crypt_with (enc : bytes -> frame -> pyres frame)
 
 Definition check_crypt := check_crypt_with (encrypt aes128_enc) (decrypt aes128_enc).
 Definition check_crypt_old := check_crypt_with (encrypt_old aes128_enc) (decrypt_old aes128_enc).
+Definition check_crypt_v1 := check_crypt_with (encrypt_v1 aes128_enc) (decrypt_v1 aes128_enc).
 
 (** hash cases: (input, observed) and (key, input byte, observed) *)
 Definition check_hash (c : bytes * bytes) : bool :=
@@ -505,6 +613,25 @@ Fixpoint check_steps (st : nwk) (ps : list (npdu * obs_up * list (N * list (byte
 
 Definition check_nwk (c : nwk * list (npdu * obs_up * list (N * list (bytes * N)))) : bool :=
   let '(st, ps) := c in check_steps st ps.
+
+(** APS receive history: state, NSDUs, observed outcome per NSDU *)
+Inductive obs_aps : Type :=
+| ObsAUpSecured (svc : N) (f : frame)
+| ObsAUpPlain (svc : N) (raw : bytes)
+| ObsANothing
+| ObsARaised (cls : string).
+
+Definition aps_up_eqb (o : aps_outcome) (b : obs_aps) : bool :=
+  match o, b with
+  | AUpSecured s f, ObsAUpSecured s' f' => (s =? s') && frame_eqb f f'
+  | AUpPlain s r, ObsAUpPlain s' r' => (s =? s') && bytes_eqb r r'
+  | ANothing, ObsANothing => true
+  | ARaised c, ObsARaised c' => String.eqb c c'
+  | _, _ => false
+  end.
+
+Definition check_aps (c : aps * list (nsdu * obs_aps)) : bool :=
+  let '(st, ps) := c in forallb (fun po => aps_up_eqb (aps_step aes128_enc st (fst po)) (snd po)) ps.
 
 (** boolean form of the freshness theorem's conclusion, for the model-side search *)
 Fixpoint strictly_fresh_b (evs : list event) : bool :=
